@@ -30,6 +30,13 @@ REPO = os.path.realpath(os.environ.get("VERIF_REPO", "/repo"))
 GUARD_ENV = "CSPUZ_VERIF_SIM"  # recorded in MANIFEST.hooks; the source does not read it.
 
 
+RUN_WALL_LIMIT = float(os.environ.get("VERIF_RUN_WALL_LIMIT", "120"))
+
+
+class RunTimeout(BaseException):
+    """A single simulated run exceeded its wall-time safety limit."""
+
+
 class HarnessError(Exception):
     """Raised when the harness itself (not the system under test) is at fault."""
 
@@ -233,14 +240,28 @@ def _worker_chunk(args):
             "harness_errors": [],
         }
         import random
+        import signal
 
+        def _on_alarm(signum, frame):
+            raise RunTimeout()
+
+        signal.signal(signal.SIGALRM, _on_alarm)
         for i in indices:
             seed = run_seed(master, prop_name, i)
             try:
-                scenario = prop.generate(random.Random(seed), tier, i)
-                scenario["seed"] = seed
-                scenario["index"] = i
-                res = prop.run(scenario)
+                signal.setitimer(signal.ITIMER_REAL, RUN_WALL_LIMIT)
+                try:
+                    scenario = prop.generate(random.Random(seed), tier, i)
+                    scenario["seed"] = seed
+                    scenario["index"] = i
+                    res = prop.run(scenario)
+                finally:
+                    signal.setitimer(signal.ITIMER_REAL, 0)
+            except RunTimeout:
+                out["harness_errors"].append(
+                    {"index": i, "seed": seed, "trace": f"run exceeded {RUN_WALL_LIMIT}s of wall time (hang); never counted as a pass"}
+                )
+                continue
             except Exception:
                 out["harness_errors"].append({"index": i, "seed": seed, "trace": traceback.format_exc()})
                 continue
